@@ -69,9 +69,12 @@ def parse_terse(out):
         if m and r["failed_checks"]:
             r["failed_checks"][-1]["where"] = "%s:%s in %s" % (m.group(1), m.group(2), m.group(3))
             continue
+        if line.startswith("CBMC failed") or "run out of memory" in line or "CBMC timed out" in line:
+            r["cbmc_error"] = line.strip()
+            continue
         m = re.match(r"^VERIFICATION:- (\w+)", line)
         if m:
-            r["status"] = m.group(1)
+            r["status"] = "ERROR" if r.get("cbmc_error") else m.group(1)
             continue
         m = re.match(r"^Verification Time: ([0-9.]+)s", line)
         if m:
